@@ -38,7 +38,7 @@ inline GenCfg profile_cfg(int profile, Rng& rng, bool faults) {
   switch (profile) {
     case PF_BOUNDS: w[OP_CALL] = 60; w[OP_EXPECT] = 20; c.inverted_pct = 6; break;
     case PF_LIFETIME: w[OP_END_SCOPE] = 8; w[OP_UNWIND] = 3; w[OP_RELEASE] = 14; w[OP_DESTROY_MOCK] = 8; w[OP_MOVE_MOCK] = 6; w[OP_ABANDON] = 3; w[OP_NEW_MOCK] = 8; break;
-    case PF_SEQ: w[OP_ASSIGN_SEQ] = 2; w[OP_NEW_SEQ] = 4; w[OP_DESTROY_SEQ] = 2; w[OP_Q_COMPLETED] = 3; w[OP_REQ_DESTRUCTION] = 4; w[OP_NEW_WATCHED] = 3; w[OP_DESTROY_WATCHED] = 4; w[OP_RELEASE] = 8; break;
+    case PF_SEQ: w[OP_ASSIGN_SEQ] = 2; w[OP_NEW_SEQ] = 4; w[OP_DESTROY_SEQ] = 2; w[OP_Q_COMPLETED] = 3; w[OP_REQ_DESTRUCTION] = 7; w[OP_NEW_WATCHED] = 5; w[OP_DESTROY_WATCHED] = 7; w[OP_RELEASE] = 8; break;   // (several sequenced requirements dying in every order: D13)
     case PF_FORBID: w[OP_RELEASE] = 10; break;
     case PF_CLAUSES: c.nested_pct = 35; c.fault_pct = 25; w[OP_MUTATE] = 10; w[OP_WIDE] = 8; break;
     case PF_WATCHED: w[OP_NEW_WATCHED] = 12; w[OP_DESTROY_WATCHED] = 12; w[OP_COPY_WATCHED] = 4; w[OP_MOVECONS_WATCHED] = 4; w[OP_ASSIGN_WATCHED] = 5;
